@@ -913,9 +913,13 @@ def call_bound_builtin(I, bb: BoundBuiltin, args, kwargs, node):
         return str_method(I, Const(I.member_value(recv)), name, args, kwargs, node)
     if isinstance(recv, Bytes):
         if name == "decode":
-            return recv.s
+            enc = I.strval(args[0]) if args else (I.strval(kwargs["encoding"]) if "encoding" in kwargs else "utf-8")
+            I.emit("NOTE", node, what="decode", codec=enc, encoded_as=recv.enc)
+            if enc is not None and enc.lower().replace("_", "-") == str(recv.enc).lower().replace("_", "-"):
+                return recv.s
+            return Unk(f"decode({I.tag(recv.s)},{recv.enc}->{enc})", "str")
         if name in ("strip", "rstrip", "lstrip"):
-            return recv
+            return Bytes(Str((StrOf(recv.s, name),)), recv.enc)
         return Unk(f"{I.tag(recv)}.{name}()")
     if isinstance(recv, Const) and isinstance(recv.v, bytes):
         if name == "decode":
